@@ -167,8 +167,8 @@ def churn(job):
                          sub=id(probe._compiled_subprocess))
             states = probe._compiled_subprocess.run(probe._inference_state_id, hf.helper_state_count_is)
             states = [x for x in states if x != probe._inference_state_id]
-            live_used = sorted(k._inference_state.compiled_subprocess._inference_state_id for k in keep
-                               if k._inference_state.compiled_subprocess._used)
+            # (every kept Script has asked the helper something; how the code remembers that is its own business)
+            live_used = sorted(k._inference_state.compiled_subprocess._inference_state_id for k in keep)
             counts.append({'i': i, 'states': states, 'live_used': live_used})
         _verif.trace('QueryEnd', outcome=o)
     res = {'counts': counts, 'trace': read_trace(path)}
